@@ -50,7 +50,7 @@ func runC12(rc *RunCtx) {
 		ro, err := s.StepBlock(dt)
 		if err != nil {
 			if _, ok := err.(*chain.PanicError); ok {
-				rc.Abort("BeginBlock panic (C05 territory)")
+				rc.Abort("BeginBlock panic (C05 territory): " + err.Error())
 			} else {
 				rc.Abort(err.Error())
 			}
